@@ -4,6 +4,18 @@ KERNEL = "Lean 4.33 kernel; axioms propext, Classical.choice, Quot.sound only (c
 TIE = "tools/extract.py (regex translator for constants/tables) and the Rust harness + sjdriver correspondence run (differential testing)"
 
 PROPS = {
+    "C08": dict(
+        lean_targets=["SJ.Props.C08", "SJ.Audit.C08"],
+        configs=dict(quick=["d"], thorough=["d", "po"]),
+        gen_keys=["pow10."],
+        rule="TODO",
+        trusted_base=[KERNEL, TIE],
+        assumptions=[],
+        partial=[],
+        technique="TODO",
+        level_text="TODO",
+        level_note="TODO",
+    ),
     "C18": dict(
         lean_targets=["SJ.Props.C18", "SJ.Audit.C18"],
         configs=dict(quick=["d"], thorough=["d", "po", "ap"]),
